@@ -62,10 +62,11 @@ where Nat.pair (a b : Nat) : Nat := (a + b) * (a + b + 1) / 2 + b
 def generic1 : Config := fun k => k % 1009 + 2
 def generic2 : Config := fun k => k % 1013 + 5
 
-/-- Equality of length expressions for all configurations: equal polynomial normal forms. The normal form is
-part of the trusted base of the table theorems (no soundness theorem `polyNF a = polyNF b → ∀ c, a.eval c = b.eval c`
-is proved); as a guard against a defect of the normaliser the two expressions must also evaluate equally at
-two generic configurations. -/
+/-- Equality of length expressions for all configurations: equal polynomial normal forms. Soundness
+(`sameLen a b → ∀ c, a.eval c = b.eval c`) is proved for division-free expressions
+(`Proofs.Lemmas.SSZPolyNF.sameLen_sound`: every list limit and vector length of the schema); quotients — byte
+lengths of bitvectors, the sync-subcommittee size — are opaque atoms of the normal form and rest on the
+normaliser. As a guard the two expressions must also evaluate equally at two generic configurations. -/
 def sameLen (a b : LExpr) : Bool :=
   polyNF a == polyNF b && a.eval generic1 == b.eval generic1 && a.eval generic2 == b.eval generic2
 
